@@ -27,6 +27,20 @@ let simplify_cls (e : Sexp.t) : Sexp.t =
      | None -> bad "simplify_cls: strategy: %s" (to_string e))
   | _ -> bad "simplify_cls: %s" (to_string e)
 
+(* the CLI's classic portfolio INTUITIONISTIC ++ HT ++ CLASSIC (Model/ClsTerm.portfolio_classic_opt =
+   the portfolio of Model/Cli.v and of Model/ExternalFull.v) under a strategy, at tree level *)
+let simplify_full_classic (e : Sexp.t) : Sexp.t =
+  match e with
+  | L [ sn; f ] ->
+    (match strategy sn with
+     | Some s ->
+       (match M.StrategyCls.run_strategy_opt fixpoint_fuel M.ClsTerm.portfolio_classic_opt s (formula f) with
+        | M.StrategyCls.RDone g -> L [ sn; of_formula g ]
+        | M.StrategyCls.RPanic -> L [ A "panic" ]
+        | M.StrategyCls.RNonterminating -> L [ A "nonterminating" ])
+     | None -> bad "simplify_full_classic: strategy: %s" (to_string e))
+  | _ -> bad "simplify_full_classic: %s" (to_string e)
+
 (* ------------------------------------------------------------------------------------------
    sem_simplify_cls: input ((strategy F) (strategy G)) or (F G), G = the implementation's output.
    1. free_variables G must be a subset of free_variables F (syntactic).
@@ -204,6 +218,9 @@ let () =
       | L [ A "eqs"; f ] -> of_formula (C.extend_quantifier_scope (formula f))
       | L [ A "ste"; f ] -> of_opt_formula (C.simplify_transitive_equality_opt (formula f))
       | _ -> simplify_cls e);
+  Ops.register "simplify_full_classic" simplify_full_classic;
+  Ops.register "simplify_full_classic_shallow" simplify_full_classic;
+  Ops.register "simplify_full_classic_recursive" simplify_full_classic;
   Ops.register "sem_simplify_cls" (sem_simplify_cls M.SimplClassic.coq_CLASSIC_opt);
   Ops.register "sem_simplify_full_classic" (sem_simplify_cls M.ClsTerm.portfolio_classic_opt)
 let init () = ()
